@@ -143,11 +143,47 @@ def run(tier, v):
             continue
         v.violation({"scenario": {k: s[k] for k in ("crate", "kind", "n", "len", "cap", "conns", "server")}, "first_event_over_a_bound": b["event"],
                      "retained_bound": b["retained_bound"], "work_bound": b["work_bound"], "retained_within_bound": b["retained_ok"], "work_within_bound": b["work_ok"]})
+    # ---- the configured capacity is honoured on every path to the analyzers: the interleavings of Tables.tla (connection sets against
+    # capacities 0..3, FIFO eviction; see X02) through the capture front ends -- sequential and the parallel one with a single worker,
+    # whose queue is far larger than the capacity -- must report exactly what the model predicts for a table of THAT capacity
+    from props import x02
+    xl, xm, xs, xt = x02.build(PID)
+    fe = []
+    for mode in ("tls", "http"):
+        for ln in xl[mode]:
+            if tier != "thorough" and ln["id"] % 3:
+                continue
+            for crate in (mode, mode + "_par"):
+                fe.append({"id": "%s|%d" % (crate, ln["id"]), "crate": crate, "frames": ln["frames"], "matcher": False, "cfg": {}, "cap": ln["cap"],
+                           "parallel": {"workers": 1, "queue": 64, "batch": 4, "timeout_ms": 5}})
+    freq = os.path.join(wd, "fe.req")
+    vlib.write_ndjson(freq, fe)
+    fout = os.path.join(wd, "fe.out")
+    vlib.run_hv_split("ana", freq, fout, parts=6, timeout=3000, env={"HV_PCAP_DIR": os.path.join(wd, "pcap")})
+    n_fe = 0
+    for o in vlib.read_ndjson(fout):
+        crate, i = o["id"].split("|")
+        m = xm[int(i)]
+        if "panic" in o:
+            v.violation({"front_end": crate, "scenario": m["scen"], "capacity": m["cap"], "observed": "panic: " + o["panic"]})
+            continue
+        if m["cap"] == 0 and not o.get("ok", True) and not o.get("results"):
+            continue                                     # a capacity of 0 may be refused outright
+        n_fe += 1
+        if crate.startswith("tls"):
+            want = sorted(x for x in m["outs"] if x == "some")
+            got = sorted("some" for _ in o["results"])
+        else:
+            want = sorted(x for x in m["outs"] if x in ("req", "resp"))
+            got = sorted(k for r_ in o["results"] for k in ("req", "resp") if r_.get(k))
+        if got != want:
+            v.violation({"front_end": "analyze_pcap, " + ("parallel (1 worker, queue 64)" if crate.endswith("_par") else "sequential"), "analyzer": crate.split("_")[0], "scenario": m["scen"],
+                         "configured_capacity": m["cap"], "schedule": m["sched"], "predicted_per_packet (table of that capacity)": m["outs"], "reported": got})
     return v.finish("exploration", {
         "evaluations": n_pk, "distinct_nontrivial": len(scen),
         "rule": "%d scenarios (analyzer x traffic kind x direction x {1 connection at capacity 1, capacity-many connections}) of up to %d segments of 1400 bytes; every packet measured, events recorded for the first 64 packets, "
                 "at power-of-two indices, at the end and at the first bound excess (%d events judged by TLC); non-trivial = scenarios" % (len(scen), nseg, n_ev),
-        "samples": maxima[:6], "states": r2.distinct, "transitions": r2.generated, "traces_validated_against_impl": len(scen),
+        "samples": maxima[:6], "states": r2.distinct + xs, "transitions": r2.generated + xt, "traces_validated_against_impl": len(scen) + n_fe,
         "bounds": {"retained": "131072 + connections * 262144", "allocated_per_packet": "1048576 + 64 * frame length"}, "measured_maxima": maxima,
     }, ["allocation counted by a process-wide counting #[global_allocator] in the harness; the analyzers' tables are the ones their front ends own (TtlCache of the crates' flow types)",
         "constants L, A, B are this check's reading of `fixed per-connection limit` and `constant plus a term proportional to the packet's size`",
